@@ -136,7 +136,25 @@ fn judge06(_cfg: &Cfg, _m: &mut M06, tr: &Transition, rep: Option<&mut Report>) 
                 );
             } else {
                 // error estimate handed to the clock = root_dispersion(base time) = sqrt(base)
-                if u.used.is_some() && fields[0] < 0.0 {
+                // were all estimates that went into the combination positive semi-definite?
+                let inputs_psd = u.used.as_ref().is_some_and(|used| {
+                    used.iter().all(|id| {
+                        u.table.iter().any(|(tid, _, f, _)| {
+                            tid == id && f.is_some_and(|f| f[2] >= 0.0 && f[5] >= 0.0 && f[2] * f[5] - f[3] * f[4] >= 0.0)
+                        })
+                    })
+                });
+                if u.used.is_some() && fields[0] < 0.0 && inputs_psd {
+                    r.viol(
+                        "C06:combined-variance-negative",
+                        format!(
+                            "combination of {} positive semi-definite source estimates has offset variance {:e} < 0: error estimate sqrt() is NaN (passed to the clock as 0); inputs (id, usable, [offset,freq,p00,p01,p10,p11,wander,delay], dispersion units): {:?}",
+                            u.used.as_ref().map_or(0, |v| v.len()),
+                            fields[0],
+                            u.table
+                        ),
+                    );
+                } else if u.used.is_some() && fields[0] < 0.0 {
                     r.viol(
                         "C06:error-estimate-nan",
                         format!("root_variance_base {:e} < 0: error estimate sqrt() is NaN (passed to the clock as 0)", fields[0]),
@@ -374,6 +392,7 @@ fn check() {
     let d_per = if quick { 3 } else { 5 };
     let d_jit = if quick { 2 } else { 3 };
     let d_sing = if quick { 3 } else { 4 };
+    let (run_rounds, d_run) = if quick { (32u16, 2) } else { (64u16, 3) };
     ctx.rule(&format!(
         "From each of 8 pre-built post-initialisation states (8 benign / 8 identical / 8 alternating-extreme samples x two-way A / one-way G, plus benign two-way next to alternating-extreme one-way and vice versa) and for 2 configurations \
          (shipped algorithm defaults; maximum_source_uncertainty unlimited so that extreme estimates are selected and steered on), BFS over all measurement histories of \
@@ -386,6 +405,9 @@ fn check() {
          quorum 1, all sources selectable}}, each followed by all histories of <= {d_jit} events over an 11-symbol alphabet built around the same base and jitter. \
          Plus exactly-singular-covariance cases: a source with identical (sub-floor or equal) delays and/or identical initial offsets next to 1 or 2 healthy agreeing sources in their Kalman stage, \
          quorum 1|2, both merge orders, <= {d_sing} events over a 10-symbol alphabet that keeps the delays identical (own-message and other-message triggered combines, root dispersion 0 and max). \
+         Plus long realistic runs as start states: {run_rounds} polling rounds (0.25 s apart, LCG jitter, steering and slew timer fed back) of WAN servers (delay 10+-1 ms, offset +-200 us, dispersion 1 ms) \
+         next to local-segment servers below the delay floor (dispersion 0 or 1 us) in the mixes WWL, WLL, WWM, WL, WWWL (thorough also LL, WWLL, timer firing late), each in ALL n! iteration orders of the controller's source table, \
+         followed by all histories of <= {d_run} events over a 13-symbol alphabet (further realistic and abrupt measurements, 4 and 8 more polling rounds, timer, usability). \
          States deduplicated on exact bit patterns. Distinct & non-trivial = distinct end state reached by a transition that invoked the controller.",
         core.len(),
         full.len()
@@ -631,6 +653,56 @@ fn check() {
         }
     }
     ctx.set("singular_covariance_explorations", singular_specs);
+    // long realistic runs as start states (`Ev::Run`): WAN servers (W) next to servers on the local
+    // segment whose round trip is below the delay floor (L: root dispersion 0, M: 1 us), polled
+    // round robin every 0.25 s with LCG jitter and steering fed back, in EVERY iteration order of
+    // the controller's source table (n! orders: the order decides which estimates are merged
+    // first), followed by all short histories over an alphabet of further realistic and a few
+    // abrupt measurements, more polling rounds, timer, usability changes.
+    let mut n_run_specs = 0u64;
+    {
+        let quarter = S / 4;
+        let profiles: &[&str] = if quick { &["WWL", "WLL", "WWM", "WL", "WWWL"] } else { &["WWL", "WLL", "WWM", "WL", "LL", "WWWL", "WWLL"] };
+        for classes in profiles {
+            let n = classes.len();
+            let l = classes.bytes().position(|c| c != b'W').unwrap_or(0) as u8;
+            let w = classes.bytes().position(|c| c == b'W').unwrap_or(0) as u8;
+            let wan = |off: i64, delay: i64, dt: i64| m(w, off, delay, dt).with_root(5 * MS, MS);
+            let follow: Vec<Ev> = vec![
+                m(l, 0, 1, quarter),
+                m(l, US, 1, DT_MS),
+                m(l, -2 * US, 2 * US, S),
+                m(l, 0, 10 * US, quarter),
+                m(l, S, 1, S),
+                wan(100 * US, 10 * MS, quarter),
+                wan(-150 * US, 11 * MS, S),
+                wan(0, 10 * MS, DT_BIG),
+                Ev::Run { classes: classes.to_string(), rounds: 4, seed: c01::RUN_SEED ^ 0x9E37_79B9_7F4A_7C15, dt: quarter, late: false },
+                Ev::Run { classes: classes.to_string(), rounds: 8, seed: c01::RUN_SEED.rotate_left(17), dt: S, late: true },
+                Ev::Tick,
+                Ev::Usable { src: l, on: false },
+                Ev::Usable { src: w, on: false },
+            ];
+            let lates: &[bool] = if quick { &[false] } else { &[false, true] };
+            for order in 0..c01::order_count(n) {
+                for &late in lates {
+                    let cfg = Cfg { sources: vec![c01::SrcKind::Two; n], order, ..Cfg::default() };
+                    let mut prefix: Vec<Ev> = (0..n as u8).map(|s| Ev::Usable { src: s, on: true }).collect();
+                    prefix.push(Ev::Run { classes: classes.to_string(), rounds: run_rounds, seed: c01::RUN_SEED, dt: quarter, late });
+                    specs.push(Spec {
+                        rank: 0,
+                        name: format!("long-run/{classes}/order {:?}/late={late}", c01::order_permutation(order, n)),
+                        cfg,
+                        prefix,
+                        alphabet: follow.clone(),
+                        depth: d_run,
+                    });
+                    n_run_specs += 1;
+                }
+            }
+        }
+    }
+    ctx.set("long_run_explorations", n_run_specs);
     ctx.note(
         "alphabet_periodic",
         &periodic
